@@ -220,16 +220,24 @@ func main() {
 		for j := range rec.Locals {
 			rec.Locals[j] = c.I64
 		}
-		rec.Body = []c.Ins{c.ILocalGet(0), c.IConst(c.I32, 1), c.IBin(c.I32, 0), c.ICall(recIdx), c.IConst(c.I32, 1), c.IBin(c.I32, 0)}
+		// rec(n) = n == 0 ? 0 : rec(n-1) + 1: succeeds for small n, exhausts the stack for huge n, stays in native code
+		rec.Body = []c.Ins{c.ILocalGet(0), c.IEqz(c.I32),
+			m.IIf(nil, []byte{c.I32}, []c.Ins{c.IConst(c.I32, 0)},
+				[]c.Ins{c.ILocalGet(0), c.IConst(c.I32, 1), c.IBin(c.I32, 1), c.ICall(recIdx), c.IConst(c.I32, 1), c.IBin(c.I32, 0)})}
 		m.Funcs = append(m.Funcs, rec)
 		bin := m.Encode()
 		var calls [][]uint64
 		for k := 4 + rng.Intn(6); k > 0; k-- {
 			fi := nh + rng.Intn(len(m.Funcs))
-			if rng.Intn(8) == 0 {
+			if rng.Intn(4) == 0 {
 				fi = recIdx
 			}
 			cl := []uint64{uint64(fi)}
+			if fi == recIdx {
+				// small depths succeed, huge ones overflow on both engines and in the model (nothing in between)
+				calls = append(calls, []uint64{uint64(fi), rng.Pick([]uint64{0, 1, 5, 33, 60, 0x7fffffff, 50000000, 0x7fffffff})})
+				continue
+			}
 			for _, t := range m.FuncSig(fi).P {
 				v := rng.Pick([]uint64{0, 1, 2, 3, 4, 6, 8, 13, 0xffffffff, 0x80000000, rng.U64(), uint64(rng.Intn(64))})
 				if t == c.I32 {
